@@ -37,7 +37,7 @@ def _registry(keys, alive):
     return {k: FakeRef(a) for k, a in zip(keys, alive)}
 
 
-U = [uuid.UUID(int=i + 1) for i in range(4)]
+U = [uuid.UUID(int=i + 1) for i in range(6)]
 
 
 def _make(ws, kind, uid, parent=None):
@@ -131,7 +131,7 @@ import numpy as _np
 from symx.core import And, Or, Not
 from .common import Scenario, run_property
 
-U = [_uuid.UUID(int=i + 1) for i in range(4)]
+U = [_uuid.UUID(int=i + 1) for i in range(6)]
 
 
 def _make(ws, kind, uid, parent=None):
@@ -342,6 +342,75 @@ class CopyAfterRemoval(Scenario):
         return "ok"
 
 
+class RecreateAfterRemoval(Scenario):
+    """remove an entity (every reference dropped, garbage collected), then create an entity of any kind with the same
+    identifier: looking the identifier up returns the new owner, a copy from another workspace cannot take it"""
+    pid = "C06"
+
+    def body(self, cx):
+        import gc
+        from geoh5py.workspace import Workspace
+        ka, kb = int(cx.int("kind_removed", 0, 4)), int(cx.int("kind_recreated", 0, 4))
+        listed = bool(cx.bool("registries_listed_in_between"))
+        ws, other = Workspace(), Workspace()
+        holder = _make(ws, 1, U[1])
+
+        def make(kind):
+            if kind == 3:
+                return holder.add_data({"d": {"values": _np.zeros(2), "uid": U[0]}})
+            return _make(ws, kind, U[0])
+        a = make(ka)
+        ws.remove_entity(a)
+        del a
+        gc.collect()
+        if listed:
+            _ = (ws.groups, ws.objects, ws.data)
+        b = make(kb)
+        cx.prove(b.uid == U[0], "a released identifier can be given to a new entity", "re-create")
+        got = ws.get_entity(U[0])
+        cx.prove(len(got) == 1 and got[0] is b, "looking the identifier up returns its one (new) owner", "lookup")
+        twin = _make(other, 1, U[0])
+        cp = twin.copy(parent=ws)
+        cx.prove(cp.uid != U[0], "a copy from another workspace does not take an identifier in use", "copy identifiers")
+        live = [e for e in list(ws.groups) + list(ws.objects) + list(ws.data) if e.uid == U[0]]
+        cx.prove(len(live) == 1 and live[0] is b, "one live entity owns the identifier", "uniqueness")
+        return "ok"
+
+
+class MoveThenLookup(Scenario):
+    """move a live entity under another parent: it still owns its identifier (lookup, refusal of reuse, copies)"""
+    pid = "C06"
+
+    def body(self, cx):
+        from geoh5py.workspace import Workspace
+        kind = int(cx.int("kind", 0, 4))
+        ws, other = Workspace(), Workspace()
+        g1, g2 = _make(ws, 0, U[1]), _make(ws, 0, U[2])
+        holder = _make(ws, 1, U[3], parent=g1)
+        holder2 = _make(ws, 2, U[4], parent=g1)
+        if kind == 3:
+            e = holder.add_data({"d": {"values": _np.zeros(2), "uid": U[0]}})
+            e.parent = holder2
+        else:
+            e = _make(ws, kind, U[0], parent=g1)
+            e.parent = g2
+        got = ws.get_entity(U[0])
+        cx.prove(len(got) == 1 and got[0] is e, "a moved entity is still found by its identifier", "lookup")
+        try:
+            if kind == 3:
+                holder.add_data({"again": {"values": _np.zeros(2), "uid": U[0]}})
+            else:
+                _make(ws, kind, U[0])
+            refused = False
+        except RuntimeError:
+            refused = True
+        cx.prove(refused, "the identifier of a moved entity cannot be given to a new one", "reuse refused")
+        twin = _make(other, 1, U[0])
+        cp = twin.copy(parent=ws)
+        cx.prove(cp.uid != U[0], "a copy from another workspace does not take the identifier of a moved entity", "copy identifiers")
+        return "ok"
+
+
 class TypeCopy(Scenario):
     """a data type used in / copied to another workspace keeps its identifier when it is free there, else gets a fresh one"""
     pid = "C06"
@@ -384,7 +453,7 @@ class OneTypePerClass(Scenario):
 
 def main(tier, seed):
     rc1 = run_property(
-        "C06", [ReuseIdentifier(), ReusePropertyGroupIdentifier(), ReuseDataIdentifier(), CopyIdentifiers(), CopyAfterRemoval(), TypeCopy(), OneTypePerClass()], tier, seed,
+        "C06", [ReuseIdentifier(), ReusePropertyGroupIdentifier(), ReuseDataIdentifier(), CopyIdentifiers(), CopyAfterRemoval(), RecreateAfterRemoval(), MoveThenLookup(), TypeCopy(), OneTypePerClass()], tier, seed,
         assumptions=["workspace level: the real in-memory Workspace (real h5py, real numpy) is driven by the symx explorer; only "
                      "entity kinds and flags are symbolic, every feasible combination is one path",
                      "garbage collection is not a variable: entities stay referenced by the harness"],
@@ -393,10 +462,10 @@ def main(tier, seed):
         bounds="entity kinds {ContainerGroup, Points, Curve} x same/free identifier; copy flags (same/other workspace, occupied, "
                "with data, with property group)",
         expected_outcomes={"ReuseIdentifier": {"refused"}, "ReusePropertyGroupIdentifier": {"refused"}, "ReuseDataIdentifier": {"refused"},
-                           "CopyIdentifiers": {"ok"},
+                           "CopyIdentifiers": {"ok"}, "RecreateAfterRemoval": {"ok"}, "MoveThenLookup": {"ok"},
                            "CopyAfterRemoval": {"ok"}, "TypeCopy": {"ok"},
                            "OneTypePerClass": {"ok"}},
-        jobs=7,
+        jobs=9,
     )
     rc2 = run_xh(
         "C06", PRELUDE, CONDS, tier, seed,
